@@ -289,7 +289,7 @@ pub fn verif_dir() -> String {
 
 /// known entries for one property: signature map plus "__what".
 fn load_known(verif: &str, id: &str) -> Vec<BTreeMap<String, String>> {
-    let path = format!("{}/known_findings.json", verif);
+    let path = std::env::var("VERIF_KNOWN").unwrap_or_else(|_| format!("{}/known_findings.json", verif));
     let txt = match std::fs::read_to_string(&path) {
         Ok(t) => t,
         Err(_) => return vec![],
@@ -313,4 +313,56 @@ fn load_known(verif: &str, id: &str) -> Vec<BTreeMap<String, String>> {
         out.push(m);
     }
     out
+}
+
+// ---------------------------------------------------------------------------------------------
+// (de)serialisation of case results for checks that run their cases in child processes
+
+impl Violation {
+    pub fn to_json(&self) -> Value {
+        json!({"key": self.key, "sig": self.sig, "msg": self.msg, "case": self.case})
+    }
+    pub fn from_json(v: &Value) -> Violation {
+        let mut sig = BTreeMap::new();
+        if let Some(m) = v["sig"].as_object() {
+            for (k, x) in m {
+                sig.insert(k.clone(), x.as_str().unwrap_or("").to_string());
+            }
+        }
+        Violation { key: v["key"].as_str().unwrap_or("").into(), sig, msg: v["msg"].as_str().unwrap_or("").into(), case: v["case"].clone() }
+    }
+}
+
+/// tags are interned through this table so that CaseOut can keep &'static str
+pub fn intern(s: &str) -> &'static str {
+    use std::sync::Mutex;
+    static TABLE: Mutex<Vec<&'static str>> = Mutex::new(Vec::new());
+    let mut t = TABLE.lock().unwrap();
+    if let Some(x) = t.iter().find(|x| **x == s) {
+        return x;
+    }
+    let leaked: &'static str = Box::leak(s.to_string().into_boxed_str());
+    t.push(leaked);
+    leaked
+}
+
+impl CaseOut {
+    pub fn to_json(&self) -> Value {
+        json!({
+            "fp": self.fp.map(|f| format!("{:032x}", f)),
+            "events": self.events, "validated": self.validated,
+            "violations": self.violations.iter().map(|v| v.to_json()).collect::<Vec<_>>(),
+            "tags": self.tags, "sample": self.sample,
+        })
+    }
+    pub fn from_json(v: &Value) -> CaseOut {
+        CaseOut {
+            fp: v["fp"].as_str().and_then(|s| u128::from_str_radix(s, 16).ok()),
+            events: v["events"].as_u64().unwrap_or(0),
+            validated: v["validated"].as_u64().unwrap_or(0),
+            violations: v["violations"].as_array().map(|a| a.iter().map(Violation::from_json).collect()).unwrap_or_default(),
+            tags: v["tags"].as_array().map(|a| a.iter().filter_map(|t| t.as_str()).map(intern).collect()).unwrap_or_default(),
+            sample: if v["sample"].is_null() { None } else { Some(v["sample"].clone()) },
+        }
+    }
 }
